@@ -42,6 +42,16 @@ def engines(ctx):
     key = ('engines', id(ctx.repo))
     if key not in _CACHE:
         G = Generator(ctx.repo)
+        # issue_warning() is defined under a Python-version test the interpreter cannot decide; every interpreted
+        # caller treats it as "emits a warning" (rules that care about the warning patch their own recorder in)
+        from sa.fold import Unknown, _PyCallable
+        try:
+            ctx.repo.mod('beartype._util.error.utilerrwarn')
+            env_w = G.f.module_env('beartype._util.error.utilerrwarn')
+            if isinstance(env_w.get('issue_warning'), Unknown):
+                env_w['issue_warning'] = _PyCallable(lambda *a, **k: None)
+        except Exception:
+            pass
         V = Vale(G)
         cat = V.catalogue()
         _CACHE[key] = (G, V, cat, GenCheck(G))
